@@ -49,7 +49,7 @@ def merge_cases(draw, max_chroms=3, max_bins=5):
                "float64": gen.DYADIC.filter(lambda v: v > 0)}[count_dtypes[t]]
         vals = draw(st.lists(st.tuples(cnt, gen.DYADIC), min_size=len(sel), max_size=len(sel)))
         inputs.append([[c[0], c[1], v[0], v[1]] for c, v in zip(sel, vals)])
-    cols = draw(st.sampled_from([None, None, ["count"], ["count", "x"], ["x"]]))
+    cols = draw(st.sampled_from([None, None, ["count"], ["count", "x"], ["x"], ["count", "x"], ["x", "count"]]))
     agg_count = draw(st.sampled_from(["sum", "sum", "min", "max", "count", "range"]))
     agg_x = draw(st.sampled_from(["sum", "sum", "max"]))
     # a binary tree over the leaves, as a nested list of leaf indices
@@ -124,7 +124,9 @@ def check_merge(case, ctx: Ctx):
         got = _read(clr, cols)
         check(got == want, lambda: f"merged pixel table differs from the element-wise {[aggs[c] for c in cols]}: "
                                    f"got {got[:6]} want {want[:6]}")
-        check(list(clr.pixels()[:].columns) == ["bin1_id", "bin2_id", *cols], "merged columns")
+        # the order in which value columns are listed is not part of the property (HDF5 lists members by name)
+        check(sorted(clr.pixels()[:].columns) == sorted(["bin1_id", "bin2_id", *cols]),
+              lambda: f"merged columns {list(clr.pixels()[:].columns)}, requested {cols}")
         with h5py.File(out, "r") as f:
             probs = schema.validate(f["/"], expect_count_sum=("count" in cols and case["agg_count"] == "sum"))
         check(not probs, lambda: f"merged cooler violates the schema: {probs[:3]}")
